@@ -145,7 +145,10 @@ def read_cgsmiles(pattern):
             # the recipe for making the branch includes the anchor;
             # which is hence the first residue in the list
             # at this point the bond order is still 1 unless we have an expansion
-            recipes[branch_anchor[-1]] = [(1, attributes, 1)]
+            # the anchor is the node the branch is attached to, which is not
+            # the last node that was read if the anchor has an earlier branch
+            anchor_attributes = dict(mol_graph.nodes[prev_node])
+            recipes[branch_anchor[-1]] = [(1, anchor_attributes, 1)]
 
         # here we check if the atom is followed by a cycle marker
         # in this case we have an open cycle and close it
